@@ -196,6 +196,24 @@ func checkC03(c *Ctx, r *Report) {
 		if !hasErr {
 			continue
 		}
+		// ... and it really evaluates CRC16 on some feasible path (a wrapper that calls a shared
+		// body with the check switched off is not a verifying entry point)
+		{
+			pan := &Analysis{ctx: c, u: newUniverse(), top: fn, uninterp: map[*ssa.Function]string{crc: "crc16"}}
+			pfr := pan.newFrame(fn, nil, nil)
+			pfr.run(dnfTrue())
+			feasible := false
+			for _, uc := range pan.ucalls {
+				for _, cj := range uc.state {
+					if !infeasible(cj) {
+						feasible = true
+					}
+				}
+			}
+			if !feasible {
+				continue
+			}
+		}
 		nver++
 		r.instance("R3.2", 1)
 		r.funcs[fnID(fn)] = true
@@ -401,10 +419,11 @@ func c03Verifier(c *Ctx, r *Report, fn, crc *ssa.Function, control bool) map[str
 		_ = eq
 	}
 	nres := fn.Signature.Results().Len()
-	for _, rs := range fr.returns {
+	for _, site := range expandedReturns(fr, 0) {
+		rs := site.rs
 		pos := c.pos(rs.instr.Pos())
-		errNil := fr.nilness(rs.vals[nres-1])
-		valNil := fr.nilOrNilPtr(rs.vals[0])
+		errNil := site.fr.nilness(rs.vals[nres-1])
+		valNil := site.fr.nilOrNilPtr(rs.vals[0])
 		guarded := guardedBy(rs.state)
 		rejecting := errNil.kind == fConst && !errNil.b && valNil.kind == fConst && valNil.b
 		if nres == 1 {
@@ -433,22 +452,39 @@ func c03Verifier(c *Ctx, r *Report, fn, crc *ssa.Function, control bool) map[str
 		}
 	}
 	// inner parser calls happen only under the equality
-	for call, ch := range fr.child {
-		if ch.fn == crc {
-			continue
-		}
-		passesData := false
-		for _, a := range call.Common().Args {
-			if s, ok := fr.val(a).(ASlice); ok && s.root == data.root {
-				passesData = true
+	var holdsCRC func(f *Frame) bool
+	holdsCRC = func(f *Frame) bool {
+		for _, uc := range an.ucalls {
+			if uc.frame != nil && uc.frame.within(f) {
+				return true
 			}
 		}
-		if !passesData {
-			continue
-		}
-		st := fr.stateAt[call.(ssa.Instruction)]
-		report(guardedBy(st), "inner parser "+ch.fn.Name()+" is only called after the CRC equality", truncate(st.String(), 300), "inner-call-unguarded", c.pos(call.Pos()))
+		return false
 	}
+	var inner func(f *Frame)
+	inner = func(f *Frame) {
+		for call, ch := range f.child {
+			if ch.fn == crc {
+				continue
+			}
+			passesData := false
+			for _, a := range call.Common().Args {
+				if s, ok := f.val(a).(ASlice); ok && s.root == data.root {
+					passesData = true
+				}
+			}
+			if !passesData {
+				continue
+			}
+			if holdsCRC(ch) {
+				inner(ch) // a shared body that does the CRC test itself: its own inner calls count
+				continue
+			}
+			st := f.stateAt[call.(ssa.Instruction)]
+			report(guardedBy(st), "inner parser "+ch.fn.Name()+" is only called after the CRC equality", truncate(st.String(), 300), "inner-call-unguarded", c.pos(call.Pos()))
+		}
+	}
+	inner(fr)
 	_ = strings.TrimSpace
 	return fired
 }
